@@ -67,7 +67,7 @@ PRIORITY = [
 def budget(tier: str) -> dict:
     if tier == "quick":
         return {"examples": 700}
-    return {"examples": 4000, "shards": 16}
+    return {"examples": 4000, "shards": 16, "fuzz_seconds": 60}
 
 
 @st.composite
